@@ -91,6 +91,9 @@ func (f *GitFilter) copyToTemp(reader io.Reader, fileSize int64, cb tools.CopyCa
 	by = by[:n]
 
 	if rerr != nil || (err == nil && len(by) < blobSizeCutoff) {
+		// Nothing is stored for a pointer: the temporary file has no
+		// further use, and nobody else is going to remove it.
+		os.Remove(tmp.Name())
 		err = errors.NewCleanPointerError(ptr, by)
 		return
 	}
